@@ -118,7 +118,8 @@ func runC01(c *vh.Ctx) {
 	c.Rule("pairs of spellings of one program that take different compiler paths: directed families enumerated exhaustively " +
 		"(6 comparisons x operand classes incl. NaN/inf/strings/numeric strings/unset x 14 condition contexts; lvalue kinds x initial " +
 		"values x 17 assignment forms x statement/expression position x inside/outside a function; op= vs explicit; all bracketings of " +
-		"2..6-operand concatenations; constant field/array index shortcuts; getline into a field), then random programs (depth-bounded " +
+		"2..6-operand concatenations; constant field/array index shortcuts; getline into a field; normalised results used as values in " +
+		"programs whose inline operand words sweep the opcode number range; CSV/TSV output mode: rebuilt $0 vs print of the fields), then random programs (depth-bounded " +
 		"grammar over the modelled statement/expression language plus calls, for-in, delete, printf) with randomly nested rewrites. " +
 		"A case is one pair (or one block for the code correspondence); non-trivial = the two spellings compile to different code")
 	d, err := os.MkdirTemp("", "c01")
@@ -258,7 +259,9 @@ func runC01(c *vh.Ctx) {
 		}
 		for i, p := range pairs {
 			// quick tier: every random program, the corpus and a sample of the directed families
-			if c.Thorough() || i >= nDirected || i < 20 || i%12 == 0 {
+			// (the wide and csv-join families are large programs / outside the modelled language: a twelfth of them in both tiers)
+			bulky := p.Family == "wide" || p.Family == "csv-join"
+			if (c.Thorough() && !bulky) || i >= nDirected || i < 20 || i%12 == 0 {
 				add(p.A)
 				add(p.B)
 			}
